@@ -42,8 +42,21 @@ type vpBMEnv struct {
 
 const vpBaseTime = 1296688602
 
+// vpEnvOpt: optional extras for vpNewBMEnvOpt.
+type vpEnvOpt struct {
+	timeBase int64 // timestamp of the genesis header (0 = vpBaseTime)
+	grind    bool  // give every honest header a nonce that passes the proof-of-work predicate
+	// bitsFor gives the difficulty bits of the honest header on top of chain (nil: vpPowLimitBits)
+	bitsFor func(chain []wire.BlockHeader) uint32
+	// prep runs after the honest chain is built and before newBlockManager
+	// (to place checkpoints on chain hashes)
+	prep func(e *vpBMEnv, p *chaincfg.Params)
+}
+
+var vpTimeBase int64 = vpBaseTime
+
 func vpHonestHeader(prev *wire.BlockHeader, height int, salt uint32) wire.BlockHeader {
-	h := wire.BlockHeader{Version: 4, Bits: vpPowLimitBits, Timestamp: time.Unix(vpBaseTime+int64(height)*600, 0), Nonce: salt}
+	h := wire.BlockHeader{Version: 4, Bits: vpPowLimitBits, Timestamp: time.Unix(vpTimeBase+int64(height)*600, 0), Nonce: salt}
 	if prev != nil {
 		h.PrevBlock = prev.BlockHash()
 	}
@@ -69,14 +82,32 @@ func vpRegtestParams() chaincfg.Params {
 // vpNewBMEnv builds an honest chain of n headers above genesis, stores
 // with block tip bt and filter tip ft (ft <= bt <= n) and a blockManager.
 func vpNewBMEnv(n, bt, ft int, params chaincfg.Params) *vpBMEnv {
+	return vpNewBMEnvOpt(n, bt, ft, params, vpEnvOpt{})
+}
+
+func vpNewBMEnvOpt(n, bt, ft int, params chaincfg.Params, opt vpEnvOpt) *vpBMEnv {
 	// the clock only feeds progress logging here: concrete (2023-11-14 + k s)
 	vpOpt("clock", 1)
+	vpTimeBase = vpBaseTime
+	if opt.timeBase != 0 {
+		vpTimeBase = opt.timeBase
+	}
 	e := &vpBMEnv{}
 	g := vpHonestHeader(nil, 0, 0)
+	if opt.grind {
+		vpGrind(&g, true)
+	}
 	e.chain = []wire.BlockHeader{g}
 	e.filters = []chainhash.Hash{{0x0f}}
 	for h := 1; h <= n; h++ {
-		e.chain = append(e.chain, vpHonestHeader(&e.chain[h-1], h, uint32(h)))
+		nh := vpHonestHeader(&e.chain[h-1], h, uint32(h))
+		if opt.bitsFor != nil {
+			nh.Bits = opt.bitsFor(e.chain)
+		}
+		if opt.grind {
+			vpGrind(&nh, true)
+		}
+		e.chain = append(e.chain, nh)
 		var f chainhash.Hash
 		f[0], f[1] = 0xf0, byte(h)
 		e.filters = append(e.filters, f)
@@ -95,6 +126,9 @@ func vpNewBMEnv(n, bt, ft int, params chaincfg.Params) *vpBMEnv {
 	}
 	e.bs.onMutate = watch
 	e.fs.onMutate = watch
+	if opt.prep != nil {
+		opt.prep(e, &params)
+	}
 	cfg := &blockManagerCfg{
 		ChainParams:      params,
 		BlockHeaders:     e.bs,
